@@ -1109,8 +1109,9 @@ def _check_pricer_history(sh, case):
 # sub-check: argument forms, long vectors, caller's arrays, copies
 # ----------------------------------------------------------------------------------------------------------------------
 
-# forms which the unchanged tree rejects with a TypeError (the entry point divides a float by the container / multiplies it):
-# outside the alphabet, counted
+# forms which the tree may reject with a TypeError (the entry point divides a float by the container / multiplies it; Vanilla
+# kept the container as it was given before /repo 070b62d): outside the alphabet - counted when they raise, compared when they
+# are answered
 FORMS_REJECTED = {(e, f) for e in ("COSPricer.put", "COSPricer.call", "COSPricer.digital", "COSPricer.cdf", "COSPricer.price-call",
                                    "ExponentialOfLevyModel.cdf", "CFBlackScholes.forward") for f in ("list", "tuple")}
 FORMS_REJECTED.add(("COSPricer.price-call", "0-d-array"))
